@@ -60,10 +60,13 @@ def elig_job(lo, hi):
         cls, mn, f = rvref.dec16(h)
         if cls == rvref.LEGAL:
             todo.append((h, mn, rvref.expand16(mn, f)))
-    for variant in (0, 1, 2):
+    for variant in (0, 1, 2, 3):
         for i in range(0, len(todo), 800):
             chunk = todo[i:i + 800]
             lines = [base_text(b, variant) for _, _, b in chunk]
+            if variant == 3:
+                # the mnemonic in UPPER / Capitalised case (accepted like every keyword)
+                lines = [(ln.split(' ', 1)[0].upper() if k % 2 else ln.split(' ', 1)[0].capitalize()) + (' ' + ln.split(' ', 1)[1] if ' ' in ln else '') for k, ln in enumerate(lines)]
             src = '\n'.join(lines) + '\n'
             res.evaluations += len(chunk)
             try:
@@ -239,7 +242,7 @@ def run(tier):
     chk.extra['eligibility_lines'] = elig
     chk.extra['monotonicity_programs'] = chk.res.evaluations - elig
     chk.rule = ('(a) complete: the expansion of each of the 28,461 legal non-hint RV32C halfwords written as text with literal '
-                'operands in three spellings (reg, imm / imm(reg); signed / unsigned upper immediate; registers as xN / ABI alias / number mixed '
+                'operands in four spellings (reg, imm / imm(reg); signed / unsigned upper immediate; registers as xN / ABI alias / number mixed; mnemonic in upper / capitalised case '
                 'within one instruction), assembled with -c, must be '
                 '16 bits and effect-equal - every element is non-trivial, distinct by construction; (b) Hypothesis IR programs: '
                 'len and every label with -c <= without, and every literal-operand instruction of the program whose meaning is in that set is 16 bits '
